@@ -505,6 +505,36 @@ def rg_identifiers(ctx):
                 f"strings without a separator, so digits migrate between them", repo.fn(q))
 
 
+def rg_derived_identifiers(ctx):
+    """objects derived by incorporating a variant that moves their coordinates are other content: a new identifier, for every
+    class alike, equal to the identifier computed when the derived object's dictionary is imported without its recorded guids"""
+    r, repo = ctx.r, ctx.repo
+    it = gene_interp(repo, max_steps=10 ** 9)
+    S = strands(it)
+    mkv = lambda s_, e, alt: it.apply(ClassTok("VariantInterval"), [s_, e, alt, "x"], {"variant_name": "v"}, None, 0)  # noqa: E731
+    ins = mkv(2, 3, "ACGT")          # an insertion-like replacement upstream of everything: every coordinate moves by 3
+    ft = mk_feature(it, [(10, 16), (20, 26)], S["PLUS"], feature_name="f", feature_id="fid", sequence_name="chr1")
+    ft2 = mk_feature(it, [(30, 36)], S["MINUS"], feature_name="f2", sequence_name="chr1")
+    tx = mk_transcript(it, [(10, 16), (20, 26)], S["PLUS"], transcript_id="t", sequence_name="chr1")
+    fc = mk_feature_collection(it, [ft, ft2], feature_collection_id="fc", sequence_name="chr1")
+    gene = mk_gene(it, [tx], gene_id="g", sequence_name="chr1")
+    objs = [("FeatureInterval", "gene.feature", ft), ("TranscriptInterval", "gene.transcript", tx),
+            ("FeatureIntervalCollection", "gene.feature", fc), ("GeneInterval", "gene.gene", gene)]
+    n = 0
+    for cname, mod, o in objs:
+        f = repo.fn(f"{mod}:{cname}.incorporate_variants")
+        n += 1
+        k, d = run(it, f, [ins], {}, o)
+        if k != "ok":
+            r.violation("C08.RD", f.qual, "identifier of an object derived by incorporating a variant", f"{cname}.incorporate_variants raises {d}", f)
+            continue
+        moved = (d.fields.get("start"), d.fields.get("end")) != (o.fields.get("start"), o.fields.get("end"))
+        r.check(moved and str(d.fields.get("guid")) != str(o.fields.get("guid")), "C08.RD", f.qual, "identifier of an object derived by incorporating a variant",
+                f"{cname}: after incorporating {(2, 3, 'ACGT')} the object spans ({d.fields.get('start')},{d.fields.get('end')}) (was ({o.fields.get('start')},"
+                f"{o.fields.get('end')})) and has guid {d.fields.get('guid')}; the operand has {o.fields.get('guid')}: changed coordinates are other content", f)
+    r.floor("C08.RD", "derived-object identifiers", n, 4)
+
+
 def r2_model_keys(ctx):
     """the dictionaries written by to_dict carry only keys the corresponding marshmallow model declares (an undeclared key
     makes Model.Schema().load(obj.to_dict()) fail).  Interpreted: to_dict is evaluated on objects of every class built by
@@ -564,6 +594,7 @@ def r2b_model_fields_forwarded(ctx):
 RULES = [
     ("C08.RK", rk_round_trips),
     ("C08.RG", rg_identifiers),
+    ("C08.RD", rg_derived_identifiers),
     ("C08.R2", r2_model_keys),
     ("C08.R2b", r2b_model_fields_forwarded),
 ]
